@@ -20,3 +20,15 @@ pub use self::service::{
     MEM_BROKER_API_VERSION,
 };
 pub use self::store::MetaStoreError;
+
+// Verification hook: re-exports the private store modules so that a harness can drive
+// `MetaStore` directly. Compiled only with `--cfg undermoon_verif`.
+#[cfg(undermoon_verif)]
+pub mod verif {
+    pub use super::migrate::*;
+    pub use super::query::*;
+    pub use super::resource::*;
+    pub use super::storage::*;
+    pub use super::store::*;
+    pub use super::update::*;
+}
